@@ -497,6 +497,164 @@ def ast_grid(ctx, suspects, failures):
         else:
             ctx.count('grid:inside-guard:equal:' + d)
 
+# ------------------------------------------------------------------------------------------------------------------
+# repeated execution: the same query code run again with other parameter bounds (top level and nested generators)
+# ------------------------------------------------------------------------------------------------------------------
+
+def _sl(s, a, b, sentinel_whole=False):
+    if sentinel_whole and (a is None or a == 0) and b == -1: return s
+    return s[a:b]
+
+def _ix(s, n):
+    r = py_index(s, n)
+    return '' if r is None else r      # SQL has no IndexError: '' (documented deviation)
+
+def make_repeat_db(rng, ctx):
+    from pony.orm import Set
+    db = Database()
+    class G(db.Entity):
+        id = PrimaryKey(int)
+        name = Required(str, autostrip=False)
+        students = Set('S')
+    class S(db.Entity):
+        id = PrimaryKey(int)
+        name = Required(str, autostrip=False)
+        group = Required(G)
+    db.bind('sqlite', ':memory:'); db.generate_mapping(create_tables=True)
+    groups = {'alpha': ['alphabet', 'alpine', 'beta'], 'gamma': ['gamut', 'gammaray', 'delta'], 'omega': ['om', 'omen', 'zeta'], 'Ann': ['Anna', 'An', 'nn']}
+    for n in range(ctx.scale(2, 8)):
+        base = ''.join(rng.choice('abcé') for _ in range(rng.choice([1, 3, 5, 7])))
+        groups[base + str(n)] = [base[:rng.randrange(0, len(base) + 1)] + rng.choice(['', 'x', 'yz', base]) or 'q' for _ in range(rng.choice([1, 2, 4]))]
+    data = []
+    with db_session:
+        sid = 0
+        for gid, (gname, ss) in enumerate(sorted(groups.items()), 1):
+            g = G(id=gid, name=gname)
+            for sname in ss:
+                sid += 1; S(id=sid, name=sname, group=g)
+            data.append((gid, gname, list(ss)))
+    return db, G, S, data
+
+def repeat_queries(G, S):
+    """(label, arity, query function — ONE code object per query —, python expectation, source for the report)"""
+    from pony.orm import exists, count
+    def t_slice(a, b): return select((s.id, s.name[a:b]) for s in S)
+    def t_stop(a, b): return select((s.id, s.name[:b]) for s in S)
+    def t_index(n): return select((s.id, s.name[n]) for s in S)
+    def n_exists_stop(n): return select(g.id for g in G if exists(s for s in g.students if s.name[:n] == g.name[:n]))
+    def n_exists_start(n): return select(g.id for g in G if exists(s for s in g.students if s.name[n:] == g.name[n:]))
+    def n_exists_both(a, b): return select(g.id for g in G if exists(s for s in S if s.group == g and s.name[a:b] == g.name[a:b]))
+    def n_count(a, b): return select(g.id for g in G if count(s for s in g.students if s.name[a:b] == g.name[a:b]) > 0)
+    def n_in(a, b): return select(g.id for g in G if g.name[a:b] in (s.name[a:b] for s in g.students))
+    def n_index(n): return select(g.id for g in G if exists(s for s in g.students if s.name[n] == g.name[n]))
+    def n_lit(a, b): return select(g.id for g in G if exists(s for s in g.students if s.name[a:b] == 'et'))
+    allS = lambda data: [(i, nm) for i, nm in enumerate([x for _, _, ss in data for x in ss], 1)]
+    return [
+        ('top:s.name[a:b]', 2, t_slice, lambda d, a, b, w: sorted((i, _sl(nm, a, b, w)) for i, nm in allS(d)), 'select((s.id, s.name[a:b]) for s in S)'),
+        ('top:s.name[:b]', 2, t_stop, lambda d, a, b, w: sorted((i, _sl(nm, None, b, w)) for i, nm in allS(d)), 'select((s.id, s.name[:b]) for s in S)'),
+        ('top:s.name[n]', 1, t_index, lambda d, n, w: sorted((i, _ix(nm, n)) for i, nm in allS(d)), 'select((s.id, s.name[n]) for s in S)'),
+        ('nested-exists:s.name[:n]==g.name[:n]', 1, n_exists_stop, lambda d, n, w: sorted(gid for gid, g, ss in d if any(_sl(x, None, n, w) == _sl(g, None, n, w) for x in ss)),
+         'select(g.id for g in G if exists(s for s in g.students if s.name[:n] == g.name[:n]))'),
+        ('nested-exists:s.name[n:]==g.name[n:]', 1, n_exists_start, lambda d, n, w: sorted(gid for gid, g, ss in d if any(x[n:] == g[n:] for x in ss)),
+         'select(g.id for g in G if exists(s for s in g.students if s.name[n:] == g.name[n:]))'),
+        ('nested-exists:s.name[a:b]==g.name[a:b]', 2, n_exists_both, lambda d, a, b, w: sorted(gid for gid, g, ss in d if any(_sl(x, a, b, w) == _sl(g, a, b, w) for x in ss)),
+         'select(g.id for g in G if exists(s for s in S if s.group == g and s.name[a:b] == g.name[a:b]))'),
+        ('nested-count:s.name[a:b]==g.name[a:b]', 2, n_count, lambda d, a, b, w: sorted(gid for gid, g, ss in d if any(_sl(x, a, b, w) == _sl(g, a, b, w) for x in ss)),
+         'select(g.id for g in G if count(s for s in g.students if s.name[a:b] == g.name[a:b]) > 0)'),
+        ('nested-in:g.name[a:b] in (s.name[a:b] ...)', 2, n_in, lambda d, a, b, w: sorted(gid for gid, g, ss in d if _sl(g, a, b, w) in [_sl(x, a, b, w) for x in ss]),
+         'select(g.id for g in G if g.name[a:b] in (s.name[a:b] for s in g.students))'),
+        ('nested-exists:s.name[n]==g.name[n]', 1, n_index, lambda d, n, w: sorted(gid for gid, g, ss in d if any(_ix(x, n) == _ix(g, n) for x in ss)),
+         'select(g.id for g in G if exists(s for s in g.students if s.name[n] == g.name[n]))'),
+        ("nested-exists:s.name[a:b]=='et'", 2, n_lit, lambda d, a, b, w: sorted(gid for gid, g, ss in d if any(_sl(x, a, b, w) == 'et' for x in ss)),
+         "select(g.id for g in G if exists(s for s in g.students if s.name[a:b] == 'et'))"),
+    ]
+
+def walk_nodes(t, tags, out):
+    if isinstance(t, (list, tuple)):
+        if t and isinstance(t[0], str) and t[0] in tags: out.append(norm(t))
+        for x in t: walk_nodes(x, tags, out)
+    return out
+
+def repeat_oracle(ctx):
+    rng = ctx.rng
+    db, G, S, data = make_repeat_db(rng, ctx)
+    pairs = [(0, 2), (1, 3), (1, 4), (2, 5), (-2, 10), (-3, 7), (-3, -1), (-4, -2), (2, -4), (1, -1), (None, 3), (None, 2), (2, None), (3, None), (6, 8), (0, 2),
+             (0, -1), (None, -1), (1, -1), (None, None), (1, 3)]
+    singles = [2, 5, 3, -3, -1, 4, 1, None, 0, -2, 2, 7, -7, 1]
+    idx = [0, 1, 3, -1, -2, 2, 0, -3, 1]
+    stale = []; model_reqs = []; model_meta = []
+    with db_session:
+        for label, arity, qf, pyf, src in repeat_queries(G, S):
+            if arity == 2: seq = list(pairs) + [(rng.choice([None, -5, -2, 0, 1, 2, 4]), rng.choice([None, -4, -1, 0, 1, 3, 6])) for _ in range(ctx.scale(6, 60))]
+            elif '[n]' in label: seq = list(idx) + [rng.choice([-4, -2, -1, 0, 1, 2, 3]) for _ in range(ctx.scale(4, 40))]
+            else: seq = list(singles) + [rng.choice([None, -6, -3, -1, 0, 1, 2, 4, 9]) for _ in range(ctx.scale(4, 40))]
+            history = []
+            for vals in seq:
+                vals = vals if isinstance(vals, tuple) else (vals,)
+                if '[n]' in label and vals[0] is None: continue
+                history.append(list(vals))
+                q = qf(*vals)
+                got = sorted(q[:])
+                exp = pyf(data, *(vals + (False,)))
+                ctx.case(['repeat', label, list(vals), len(history)], kind='oracle:sqlite:repeat:' + ('nested' if label.startswith('nested') else 'top'))
+                if got != exp:
+                    if got == pyf(data, *(vals + (True,))):
+                        ctx.count('repeat:sentinel')
+                        ctx.violation("a slice with start 0/omitted and parameter stop -1 returns the whole string", {'query': src, 'values': list(vals)},
+                                      observed=got[:6], expected=exp[:6], key=KNOWN_KEY)
+                    else:
+                        stale.append(dict(label=label, src=src, history=list(history), vals=list(vals), observed=got, expected=exp,
+                                          first_run_alone=None))
+                # ---- tie: the ROOT translator records every pinned parameter with its CURRENT value
+                t = q._translator
+                names = ('a', 'b') if arity == 2 else ('n',)
+                used = [nm for nm in names if (nm + ':' in src or ':' + nm in src or '[' + nm + ']' in src)]
+                want = {nm: v for nm, v in zip(names, vals) if nm in used and v is not None}
+                have = {}
+                for k, v in t.fixed_param_values.items():
+                    nm = k[1] if isinstance(k, tuple) and len(k) > 1 else str(k)
+                    if nm in names: have[nm] = v
+                if have != want:
+                    ctx.divergence("a pinned slice/index parameter is not recorded (with its current value) in the ROOT translator's fixed_param_values "
+                                   "(obligation C25_pinned_recorded: Query._get_translator re-translates only on what the root records)",
+                                   {'query': src, 'values': list(vals), 'history': list(history)}, model=want, impl=have)
+                # ---- tie: the constants in the emitted AST are the model's pinned constants for the CURRENT values
+                nodes = walk_nodes([t.conditions, t.expr_columns], ('STRING_SLICE',) if arity == 2 or '[n]' not in label else ('SUBSTR',), [])
+                if '[n]' in label:
+                    model_reqs.append({'op': 'getitem_index', 'dialect': 'SQLite', 'recv': {'expr': ['COLUMN', 'x']}, 'index': {'param': 'n', 'value': vals[0]}, 'fixed': []})
+                else:
+                    a, b = (vals if arity == 2 else ((None, vals[0]) if '[:n]' in src else (vals[0], None)))
+                    if '[:b]' in src: a = None
+                    ga = None if a is None else {'param': 'a', 'value': a}; gb = None if b is None else {'param': 'b', 'value': b}
+                    model_reqs.append({'op': 'getitem_slice', 'dialect': 'SQLite', 'recv': {'expr': ['COLUMN', 'x']}, 'start': ga, 'stop': gb, 'fixed': []})
+                model_meta.append((src, list(vals), list(history), [[n[0]] + [canon_ast(x) for x in n[2:]] for n in nodes]))
+    if ctx.driver.ok and model_reqs:
+        for (src, vals, history, real_nodes), o in zip(model_meta, drive(ctx, model_reqs)):
+            res = o.get('res', {})
+            if res.get('kind') == 'node':
+                enc = lambda x: None if x is None else (['VALUE', x['const']] if 'const' in x else x['expr'])
+                want = ['STRING_SLICE', enc(res['node']['start']), enc(res['node']['stop'])]
+            elif res.get('kind') == 'substr': want = ['SUBSTR'] + res['sql'][2:]
+            elif res.get('kind') == 'whole': want = None
+            else:
+                ctx.divergence('driver could not run the __getitem__ model', [src, vals], model=o, impl=None); continue
+            ctx.case(['repeat-ast', src, vals, len(history)], kind='getitem-tie:repeat-ast')
+            bad = [n for n in real_nodes if n != want] if want is not None else real_nodes
+            if bad or (want is not None and not real_nodes):
+                ctx.divergence('the slice/index constants in the AST of the translator the query uses are not the pinned constants of the current parameter values',
+                               {'query': src, 'values': vals, 'history': history}, model=want, impl=real_nodes[:3])
+    # report: one violation per query shape, with the shortest value sequence that ends in a wrong answer
+    seen = set()
+    for f in stale:
+        if f['label'] in seen: continue
+        seen.add(f['label'])
+        ctx.violation('a string slice/index with a parameter bound computes something else than Python for the CURRENT value of the parameter when the same query code '
+                      'is executed again (real SQLite)',
+                      {'query': f['src'], 'parameter_values_of_successive_executions': f['history'], 'failing_execution': f['vals'],
+                       'groups(id,name,students)': data[:4]},
+                      observed=f['observed'][:8], expected=f['expected'][:8], key='sqlite:repeat:%s:%r' % (f['label'], f['history'][-2:]))
+    db.disconnect()
+
 def recv_ast(recv):
     spec = recv[1]
     if 'const' in spec: return ['VALUE', spec['const']]
@@ -560,6 +718,7 @@ def run(ctx):
     translator_tie(ctx)
     primitives_tie(ctx)
     replay_known(ctx)
+    repeat_oracle(ctx)
     suspects = Suspects(); failures = []
     ast_grid(ctx, suspects, failures)
     for provider in ['sqlite', 'postgres', 'mysql', 'oracle']:
